@@ -12,8 +12,9 @@ import (
 	"hash/fnv"
 	"runtime"
 	"sort"
+	"strconv"
 	"strings"
-	"sync"
+	"sync/atomic"
 	"testing/synctest"
 	"time"
 )
@@ -96,10 +97,19 @@ type waiter struct {
 type Consumer func(ev *Event)
 
 type Kernel struct {
-	mu       sync.Mutex
-	parked   []*waiter
-	arrivals int
-	notify   chan struct{}
+	// parkCh carries parking goroutines to the kernel. It is the only visible
+	// synchronisation between a parking goroutine and the kernel (edge: parker
+	// → kernel); the release (kernel → parker) is hidden from the race detector,
+	// so the scheduler's hand-offs create no happens-before edge between two
+	// goroutines of the system under test. The buffer is large because a send
+	// on a buffered channel also acquires what the receiver of the same slot
+	// released one buffer-length earlier.
+	parkCh   chan *waiter
+	parked   []*waiter // kernel goroutine only
+	arrivals int       // kernel goroutine only
+	seqA     atomic.Int64
+	haltedA  atomic.Bool
+	stopA    atomic.Bool
 	start    time.Time
 	rng      *Rand
 	// FirstCandidate replaces the seeded choice by "lowest key" (used by the
@@ -160,7 +170,7 @@ func (k *Kernel) rel(s string) string {
 // New must be called inside the bubble.
 func New(seed uint64) *Kernel {
 	return &Kernel{
-		notify:     make(chan struct{}, 1),
+		parkCh:     make(chan *waiter, 1<<16),
 		start:      time.Now(),
 		rng:        NewRand(seed, "schedule"),
 		hash:       1469598103934665603,
@@ -199,16 +209,16 @@ func (k *Kernel) When(name string, pred func(last *Event) bool, fn func()) {
 }
 
 // Halt freezes the world: no goroutine is released any more.
-func (k *Kernel) Halt() { k.mu.Lock(); k.halted = true; k.mu.Unlock(); k.poke() }
+func (k *Kernel) Halt() { k.haltedA.Store(true); k.poke() }
 
-func (k *Kernel) Halted() bool { k.mu.Lock(); defer k.mu.Unlock(); return k.halted }
+func (k *Kernel) Halted() bool { return k.haltedA.Load() }
 
 // Stop makes Run return at the next quiescent point.
-func (k *Kernel) Stop() { k.mu.Lock(); k.stopReq = true; k.mu.Unlock(); k.poke() }
+func (k *Kernel) Stop() { k.stopA.Store(true); k.poke() }
 
 func (k *Kernel) poke() {
 	select {
-	case k.notify <- struct{}{}:
+	case k.parkCh <- nil:
 	default:
 	}
 }
@@ -216,20 +226,38 @@ func (k *Kernel) poke() {
 // Park blocks the calling goroutine at a seam until the kernel releases it.
 // eligible (may be nil) is evaluated by the kernel at quiescent points.
 func (k *Kernel) Park(ev *Event, eligible func() bool) {
-	raceDisable()
 	if ev.key == "" {
-		ev.key = fmt.Sprintf("%s|%s|%s|%016x", ev.Kind, k.rel(ev.Site), k.rel(ev.ID), ev.Actor)
+		ev.key = ev.Kind + "|" + k.rel(ev.Site) + "|" + k.rel(ev.ID) + "|" + strconv.FormatUint(ev.Actor, 16)
 	}
+	raceDisable()
+	ev.PSeq = int(k.seqA.Load())
+	raceEnable()
 	w := &waiter{ev: ev, ch: make(chan struct{}), eligible: eligible}
-	k.mu.Lock()
-	k.arrivals++
-	w.arrival = k.arrivals
-	ev.PSeq = k.seq
-	k.parked = append(k.parked, w)
-	k.mu.Unlock()
-	k.poke()
+	k.parkCh <- w
+	raceDisable()
 	<-w.ch
 	raceEnable()
+}
+
+// drain moves goroutines that parked meanwhile into the kernel's private list.
+func (k *Kernel) drain() {
+	for {
+		select {
+		case w := <-k.parkCh:
+			k.admit(w)
+		default:
+			return
+		}
+	}
+}
+
+func (k *Kernel) admit(w *waiter) {
+	if w == nil {
+		return
+	}
+	k.arrivals++
+	w.arrival = k.arrivals
+	k.parked = append(k.parked, w)
 }
 
 // NewEvent builds an event for the calling goroutine, classifying its stack.
@@ -340,6 +368,7 @@ func (k *Kernel) envEvent(name string, fn func()) {
 	k.deliverPending()
 	ev := &Event{Seq: k.seq, T: k.Now(), Kind: "env", Site: name, key: "env|" + name}
 	k.seq++
+	k.seqA.Store(int64(k.seq))
 	k.Stats.EnvEvents++
 	k.current = ev
 	fn()
@@ -361,17 +390,13 @@ func (k *Kernel) Run(until time.Duration) string {
 	defer deadline.Stop()
 	for {
 		synctest.Wait()
+		k.drain()
 		k.deliverPending()
-		k.mu.Lock()
-		halted, stop := k.halted, k.stopReq
-		k.mu.Unlock()
-		if halted {
+		if k.haltedA.Load() {
 			return "halted"
 		}
-		if stop {
-			k.mu.Lock()
-			k.stopReq = false
-			k.mu.Unlock()
+		if k.stopA.Load() {
+			k.stopA.Store(false)
 			return "stopped"
 		}
 		if k.seq >= k.MaxEvents {
@@ -397,7 +422,6 @@ func (k *Kernel) Run(until time.Duration) string {
 		if fired {
 			continue
 		}
-		k.mu.Lock()
 		var cands []*waiter
 		raceDisable()
 		for _, w := range k.parked {
@@ -406,10 +430,10 @@ func (k *Kernel) Run(until time.Duration) string {
 			}
 		}
 		raceEnable()
-		k.mu.Unlock()
 		if len(cands) == 0 {
 			select {
-			case <-k.notify:
+			case w := <-k.parkCh:
+				k.admit(w)
 				continue
 			case <-deadline.C:
 				k.Stats.VirtualTime = k.Now()
@@ -437,18 +461,17 @@ func (k *Kernel) Run(until time.Duration) string {
 			k.Stats.MaxParked = len(cands)
 		}
 		w := cands[idx]
-		k.mu.Lock()
 		for i, p := range k.parked {
 			if p == w {
 				k.parked = append(k.parked[:i], k.parked[i+1:]...)
 				break
 			}
 		}
-		k.mu.Unlock()
 		w.ev.Seq = k.seq
 		w.ev.T = k.Now()
 		w.ev.NParked = len(cands)
 		k.seq++
+		k.seqA.Store(int64(k.seq))
 		k.Stats.Events++
 		k.current = w.ev
 		if immediate(w.ev) {
@@ -502,12 +525,10 @@ func (k *Kernel) Finish() Stats {
 }
 
 // ParkedCount reports how many goroutines are parked right now.
-func (k *Kernel) ParkedCount() int { k.mu.Lock(); defer k.mu.Unlock(); return len(k.parked) }
+func (k *Kernel) ParkedCount() int { return len(k.parked) }
 
 // ParkedKeys lists the parked seam keys (diagnostics).
 func (k *Kernel) ParkedKeys() []string {
-	k.mu.Lock()
-	defer k.mu.Unlock()
 	var out []string
 	for _, w := range k.parked {
 		out = append(out, w.ev.key)
